@@ -65,6 +65,7 @@ def _dyadic(draw, tier):
     c["normalize"] = draw(st.booleans())
     c["threshold"] = draw(st.sampled_from([0.0, 0.5, 1.0]))
     c["compiled"] = draw(st.booleans())
+    c["int_times"] = draw(st.booleans())
     return c
 
 
@@ -102,7 +103,7 @@ def _enum(tier, shard, nshards):
 
 
 PHASES = [
-    HypPhase("dyadic", _dyadic, dict(quick=1500, thorough=25000)),
+    HypPhase("dyadic", _dyadic, dict(quick=2500, thorough=25000)),
     HypPhase("float", _float, dict(quick=500, thorough=10000)),
     EnumPhase("degenerate3", _enum,
               lambda tier: "all 8^3 combinations of the train kinds {empty, [t0], [t1], one "
